@@ -264,6 +264,30 @@ def _run_unit(name, d, cfg, tier, src, edits, work, only_props):
     if js is None:
         raise Undecided("verus produced no JSON (rc=%s): %s" % (rc, out[-3000:]))
     vr = js["verification-results"]
+    lines = src.splitlines()
+    # a failed `by (compute_only)` assertion aborts Verus before SMT: it is a definite refutation of
+    # that lemma (constants evaluated by the interpreter), not a tool limit
+    comp = {}
+    for mm in re.finditer(r"^error: (expression simplifies to .*)\n\s+--> [^:\n]+:(\d+):\d+", diag, re.M):
+        ln = int(mm.group(2))
+        comp.setdefault(_enclosing_fn(lines, ln), []).append("%s (line %d: %s)" % (mm.group(1)[:300], ln, lines[ln - 1].strip()[:160]))
+    if comp:
+        obls = []
+        for o in cfg["obligations"]:
+            if only_props and not (set(o["props"]) & set(only_props)):
+                continue
+            ob = Obligation(o["name"], o["props"], "verus", o["fn"], o["clause"], o.get("class", "complete"), o.get("bound"))
+            ob.unit_name = name
+            ob.witness = o.get("witness")
+            hit = [f for f in o["verus_fns"] if f.split("::")[-1] in comp]
+            if hit:
+                ob.status = FAILED
+                ob.detail = "\n".join(sum([comp[f.split("::")[-1]] for f in hit], []))
+            else:
+                ob.status = UNDECIDED
+                ob.detail = "verification aborted: a compute_only assertion failed in %s" % sorted(comp)
+            obls.append(ob)
+        return obls, info
     if vr.get("encountered-vir-error") or (vr.get("encountered-error") and vr.get("errors", 0) == 0 and not vr.get("success")):
         raise Undecided("verus front-end error (unsupported construct / type error) in unit %s:\n%s" % (name, diag[-3000:]))
     funcs = {}
@@ -274,7 +298,6 @@ def _run_unit(name, d, cfg, tier, src, edits, work, only_props):
             info["solver_s"] += fb.get("time-micros", 0) / 1e6
     info["functions"] = {k: {"ok": v["success"], "ms": v["time"], "rlimit": v["rlimit"]} for k, v in funcs.items()}
     # diagnostics per function: map error line -> enclosing fn in generated source
-    lines = src.splitlines()
     errs = {}
     for mm in re.finditer(r"^error(?:\[\w+\])?: (.*)\n\s+--> [^:\n]+:(\d+):\d+", diag, re.M):
         msg, ln = mm.group(1), int(mm.group(2))
